@@ -144,6 +144,24 @@ def rule_r2(ctx) -> List[R.Inst]:
         st, tgt = asg[-1]
         v = st.value
         why = None
+        if isinstance(v, ast.Name):
+            # a local: its one definition stands for it — provided it is computed per chart.  Bound once BEFORE the loop over the
+            # source's charts it is the key count of whatever chart it was taken from, given to every chart of the set
+            defs = [n for n in ast.walk(conv.fn.node) if isinstance(n, ast.Assign) and len(n.targets) == 1 and isinstance(n.targets[0], ast.Name)
+                    and n.targets[0].id == v.id]
+            src_names = {a.arg for a in conv.fn.node.args.args[:2]} - {"cls", "self"}
+            loops = [l_ for l_ in ast.walk(conv.fn.node) if isinstance(l_, ast.For) and any(x is st for x in ast.walk(l_)) and
+                     any(isinstance(x, ast.Name) and x.id in src_names for x in ast.walk(l_.iter))]
+            if len(defs) == 1:
+                inside = any(any(x is defs[0] for x in ast.walk(l_)) for l_ in loops)
+                if loops and not inside:
+                    insts.append(R.viol(rid, key, conv.file, defs[0].lineno,
+                                        f"'{fld}' of every converted chart is '{v.id}', computed once before the loop over the source's charts "
+                                        f"('{unparse(defs[0].value)[:70]}'): a set whose charts have different key counts (dance-single next to "
+                                        f"dance-double) gets the first one's count on all of them — columns beyond it fall outside the "
+                                        f"target's playfield", construct=f"{conv.name}.{meth}: {fld} <- loop-invariant {v.id}"))
+                    continue
+                v = defs[0].value
         if conv.tgt_game == "osu":
             if isinstance(v, ast.Constant) and v.value == 7 and conv.src_game in SEVEN_LANE_SOURCES:
                 why = "constant 7 (O2Jam has seven lanes: C07.R3)"
